@@ -96,12 +96,24 @@ def run(ctx):
             continue
         cid, kv = parse_kv_line(line)
         kind = kv.get("kind")
-        if kind not in ("L", "R", "H"):
+        if kind not in ("L", "R", "H", "M"):
             continue
         evals += 1
         kinds[kind] += 1
         spec = specs.get(cid, "")
         corr = kv.get("corr", "?")
+        if kind == "M":
+            judge_eval += 1
+            dist["M:capsok=%s" % kv.get("capsok")] += 1
+            if corr != "ok":
+                report_corr(cid, kv, "model mergeLayer and the real single-layer event stream disagree", "mergeLayer=HighlightIter::next")
+            if kv.get("wf") != "ok":
+                report_judge(cid, kv, "events-wellformed", "single-layer event stream is not well formed")
+            if kv.get("err", "-") != "-":
+                report_judge(cid, kv, "highlight-error", "Highlighter::highlight returned an error: " + kv["err"])
+            if int(kv.get("depth", "0") or 0) >= 2:
+                distinct.add(hashlib.sha1(spec.encode()).hexdigest())
+            continue
         variants[corr] += 1
         if corr not in ("orig", "fixed", "both"):
             name = {"L": "lossy=LossyUtf8", "R": "render=HtmlRenderer::render", "H": "render=HtmlRenderer::render"}[kind]
@@ -151,6 +163,10 @@ def run(ctx):
             if nontrivial:
                 distinct.add(hashlib.sha1(spec.encode()).hexdigest())
             dist["H:nontrivial" if nontrivial else "H:trivial"] += 1
+            dist["H:chunkwise-text-%s-whole-source-text" % ("equals" if kv.get("whole") == "1" else "differs-from")] += 1
+            if kv.get("charbnd") == "1" and kv.get("whole") != "1" and kv.get("wf") == "ok":
+                # normalize_whole is a theorem: this cannot happen unless the driver/judge is broken
+                report_corr(cid, kv, "normalize_whole contradicted on a real stream", "normalize_whole")
             if int(kv.get("nloc", "0") or 0) >= 1:
                 dist["H:with-resolved-local-refs"] += 1
             if int(kv.get("ninj", "0") or 0) >= 1:
@@ -187,4 +203,6 @@ def run(ctx):
     })
     if evals == 0:
         ctx.oblige("run:driver-produced-results", False, out[-500:])
+    # concrete failing inputs (judge) first, so that the first VIOLATION line carries a replayable input
+    ctx.violations.sort(key=lambda v: 0 if v["found_input"] else 1)
     return ctx.finish()
